@@ -68,6 +68,23 @@ class Atoms:
 
 
 @dataclass
+class Fragment:
+    """A block of a big function verified as a function of its own: the `{ .. }` block that follows the first match of
+    `anchor` (a regex on the code, e.g. the pattern of a match arm) inside function `fn` is copied verbatim and given the
+    hand-written `header` (name, parameters = the variables the pattern binds, return type).  What this drops: the
+    enclosing dispatch (that the block runs for exactly those tokens / in that mode is NOT verified)."""
+    file: str
+    fn: str
+    impl: str
+    anchor: str
+    header: str          # e.g. 'fn step__in_head_meta(&mut self, tag: Tag) -> ProcessResult<Handle>'
+    name: str            # name used for contracts: impl::name
+    wrap: str = None
+    rewrites: tuple = ()
+    canary: bool = True
+
+
+@dataclass
 class Item:
     file: str
     kind: str           # fn | macro | enum | struct | const | static
@@ -364,7 +381,7 @@ class UnitBuild:
     def build(self):
         open_wrap = None
         for part in self.unit.PARTS:
-            wrap = part.wrap if isinstance(part, Item) else None
+            wrap = part.wrap if isinstance(part, (Item, Fragment)) else None
             if wrap != open_wrap:
                 if open_wrap is not None:
                     self.gen.add('}', 'gen')
@@ -373,6 +390,8 @@ class UnitBuild:
                 open_wrap = wrap
             if isinstance(part, Generated):
                 self.gen.add(part.fn(self), 'generated', part.label, 1)
+            elif isinstance(part, Fragment):
+                self.emit_fragment(part)
             elif isinstance(part, Atoms):
                 self.atoms_at = len(self.gen.lines)
                 self.atoms_part = part
@@ -479,6 +498,25 @@ class UnitBuild:
             self.emit_split(it, text, line0)
             return
         self.emit_fn(it, text, line0)
+
+    def emit_fragment(self, fr):
+        s = self.src(fr.file)
+        start, lb, end = s.find_fn(fr.fn, fr.impl)
+        m = re.compile(fr.anchor).search(s.masked, lb, end)
+        if not m:
+            raise ExtractError('fragment anchor /%s/ not found in %s::%s' % (fr.anchor, fr.impl, fr.fn))
+        b0 = s.masked.index('{', m.end() - 1) if s.masked[m.end() - 1] != '{' else m.end() - 1
+        b1 = match_delim(s.masked, b0)
+        line0 = s.line_of(b0)
+        text = s.text[b0:b1 + 1]
+        text, kept, dropped = apply_cfg(text)
+        self.count('R9-cfg', kept + dropped)
+        text, n = strip_macro_calls(text, LOG_MACROS)
+        self.count('R9-log', n)
+        it = Item(fr.file, 'fn', fr.name, impl=fr.impl, wrap=fr.wrap, rewrites=fr.rewrites, canary=fr.canary)
+        text = self.apply_rewrites(text, it)
+        self.count('S-fragment', 1)
+        self.emit_fn(it, fr.header + ' ' + text, line0)
 
     def emit_split(self, it, text, line0):
         """Case split for verification only: the function whose body is one big `match` over the
